@@ -161,7 +161,18 @@ def h_program_roundtrip(env, N, prog, config='plain', cls='CliffordCircuit', var
         env.goal('rank_restored', eq(obj.r, r))
 
 
-def h_packing(env, N, placements, cls='CliffordCircuit', measures=()):
+def h_packing_all(env, N, n_ops, cls='CliffordCircuit', kmax=None, with_measure=False):
+    """the packing lemma on EVERY placement shape with n_ops operations (and, for Circuit, every position of one measurement)"""
+    tp = []
+    for k in range(1, (kmax or N) + 1):
+        tp += [list(c) for c in itertools.combinations(range(N), k)]
+    for places in itertools.product(tp, repeat=n_ops):
+        variants = [()] if not with_measure else [(m,) for m in range(n_ops)]
+        for ms in variants:
+            h_packing(env, N, [list(q) for q in places], cls, ms, tag='%s%s:' % (places, ms))
+
+
+def h_packing(env, N, placements, cls='CliffordCircuit', measures=(), tag=''):
     """structural lemma on a concrete placement shape (no symbolic data): the flattened layer order is a permutation of
     the added gates in which overlapping gates keep their order, gates sharing a layer are pairwise disjoint, and no
     gate added after a measurement precedes it"""
@@ -188,7 +199,7 @@ def h_packing(env, N, placements, cls='CliffordCircuit', measures=()):
             flat.append(('M', layer))
             layer_of[id(layer)] = li
     added = [o[2] for o in ops if o[0] == 'G']
-    env.goal('permutation', sorted(id(g) for _, g in flat if _ == 'G') == sorted(id(g) for g in added) and
+    env.goal(tag + 'permutation', sorted(id(g) for _, g in flat if _ == 'G') == sorted(id(g) for g in added) and
              len([1 for k, _ in flat if k == 'M']) == len(measures))
     pos = {id(g): i for i, (_, g) in enumerate(flat)}
     okorder = True
@@ -201,8 +212,8 @@ def h_packing(env, N, placements, cls='CliffordCircuit', measures=()):
                     okorder = False
                 if layer_of.get(id(ga)) == layer_of.get(id(gb)):
                     okdisjoint = False
-    env.goal('overlapping_gates_keep_order', okorder)
-    env.goal('gates_in_a_layer_are_disjoint', okdisjoint)
+    env.goal(tag + 'overlapping_gates_keep_order', okorder)
+    env.goal(tag + 'gates_in_a_layer_are_disjoint', okdisjoint)
     if measures:
         # every gate added after measurement m sits in a later layer than m; every gate added before, in an earlier one
         okm = True
@@ -218,4 +229,4 @@ def h_packing(env, N, placements, cls='CliffordCircuit', measures=()):
                             okm = False
                         if k2 < k and not layer_of[id(o2[2])] < ml:
                             okm = False
-        env.goal('nothing_crosses_a_measurement', okm)
+        env.goal(tag + 'nothing_crosses_a_measurement', okm)
